@@ -200,6 +200,20 @@ def r20_4(ctx):
     src = o.operand(run.blocks[head]["term"]["args"][0])
     bad = [m for m in (method_name(c) for c in src.call_names()) if m in FILTERS]
     ctx.check(not bad, "zip-unfiltered", run.loc(head), "results are the zip of all test cases with all outputs (lengths equal by R20.3)", "the zip source passes %s" % bad)
+    # every zip of outputs with test cases pairs them positionally: neither side may be filtered / skipped before the zip
+    nz = 0
+    for body in [run] + prog.closures_of(run):
+        ob = Origins(body)
+        for zb, zt in body.calls():
+            if mname(zt) != "Iterator::zip":
+                continue
+            nz += 1
+            sides = [ob.operand(zt["args"][0]), ob.operand(zt["args"][1])]
+            badz = [m for sd in sides for m in (method_name(c) for c in sd.call_names()) if m in FILTERS]
+            ctx.check(not badz, "zip-positional#%d" % nz, body.loc(zb), "outputs and test cases are zipped position by position (no filter/skip before the zip)",
+                      "one side of a zip(outputs, testcases) passes %s first: results shift to the wrong test cases and the last ones get no result" % badz)
+    ctx.check(nz >= 2, "zip-sites", run.where(), "%d zip(outputs, testcases) sites analysed (regular and timeout path)" % nz,
+              "only %d zip sites found in test::Args::run (2 confirmed by reading)" % nz)
     events = {}
     for bb, si, nm in _counter_incs(run):
         events.setdefault(bb, {})[nm] = 1
@@ -337,5 +351,5 @@ def _mentions_local(body, node, name):
 def run(ctx):
     ctx.run_rule("R20.1", "order: prepend test cases, then the document's, then append's, unfiltered; one execute_all per document [E-FLOW]", r20_1, floor=5)
     ctx.run_rule("R20.3", "one output per test case: every continuing loop path of StatefulExecutor::execute_all pushes exactly one Output; Unknown pads; script executor count gate [E-STATE by segment enumeration]", r20_3, floor=4)
-    ctx.run_rule("R20.4", "one outcome per non-detached test case, counted exactly once as failed (iff validate is Err) or succeeded [E-STATE]", r20_4, floor=4)
+    ctx.run_rule("R20.4", "one outcome per non-detached test case, counted exactly once as failed (iff validate is Err) or succeeded; all zips positional [E-STATE]", r20_4, floor=7)
     ctx.run_rule("R20.5", "exit mapping: Err(ValidationFailedError) iff count_failed > 0; main: 50 / 1 / SUCCESS; no process::exit [E-SITE, E-TABLE]", r20_5, floor=5)
